@@ -894,6 +894,10 @@ def describe_failure(m: Micro, fd: dict, bad: tuple) -> dict:
                 if op.get("dest") == x["id"] and op["op"] not in ("Assign",):
                     out["var_def"] = {"op": op["op"], "function": op.get("function"),
                                       "args": [_operand_desc(fd, s) for s in op["srcs"]]}
+                    if op["op"] == "GetAttr":
+                        out["var_def"].update({k: op.get(k) for k in ("attr", "class_name", "error_kind", "borrowed",
+                                                                      "attr_always_initialized", "attr_deletable",
+                                                                      "attr_has_default", "attr_final")})
     return out
 
 
